@@ -5,6 +5,15 @@ ROOT = os.path.dirname(os.path.dirname(os.path.abspath(__file__)))
 
 # id -> (level category, technique, level text, level note, design ref)
 BUILT = {
+ "C41": ("exploration", "exhaustive enumeration of all 3,652,059 dates of years 1..9999 + proptest SQL batches vs an enumerated calendar oracle",
+         "Every date goes through the literal parser, every internal converter (via the H2 hook) and the renderer with parse-back; all 86,400 seconds on boundary dates through TIME/TIMESTAMP parsing; invalid field combinations must be rejected; generated whole years go through SQL CAST / date functions / INSERT+SELECT / DEFAULT literals.",
+         "Oracle = day-by-day enumeration of the proleptic Gregorian calendar, cross-checked at start-up against a closed-form formula; converters are compared up to their own fixed epoch offset. Needs hook H2 (verif_api::calendar).", "4 C41"),
+ "C20": ("exploration", "proptest function/operator applications through SQL vs reference implementations written from the README",
+         "Each case applies one documented function, CAST, CASE or an arithmetic tree to generated arguments (Unicode strings, boundary integers, exactly representable floats, dates of years 1..9999, NULL in any position), also through UPDATE SET; values must match the reference, NULL-in gives NULL-out for strict functions, integer overflow must be an error, division by zero NULL or error.",
+         "Where the README is silent the domain is restricted rather than guessed (documented next to each function); the check caps its own address space so a runaway allocation cannot take the machine down.", "4 C20"),
+ "C09": ("exploration", "proptest SQL histories over constrained schemas vs a relational model (accept/reject in both directions)",
+         "Generated schemas with PRIMARY KEY, UNIQUE, NOT NULL, column CHECKs and FOREIGN KEYs (NO ACTION/RESTRICT/CASCADE) and histories with key updates, delete-then-reinsert, parent deletes and transactions; each write must be accepted iff the model's resulting state satisfies every constraint (wrongly accepted and wrongly rejected are both failures).",
+         "CHECK grammar: comparisons with pool literals joined by AND/OR (three-valued: passes unless FALSE); single-column keys; ON DELETE SET NULL, NULL primary keys and checking-order-dependent statements are not generated. Listed findings gate CHECKs on text, CHECKs with =/<>, and FK-column UPDATEs.", "4 C09"),
  "C03": ("fault_enumeration", "proptest histories over the Wal API vs a model log + file-level fault enumeration (cut / flip / zero-fill / zero-extend), recovery compared page by page",
          "Generated write/batch/sync/rotate/truncate/checkpoint/reopen-append histories on a 4..8-page space; every resulting segment file is then cut at frame boundaries +-1, header ends +-1 and interior offsets, byte-flipped and zero-filled; Wal::recover / recover_for_file / replay_segments_to_storage / read_page must yield exactly the longest intact frame prefix in write order.",
          "Faults are applied after the history (the property's quantifier); the expected prefix is computed from the model log and the documented frame layout, not through TurDB.", "4 C03"),
